@@ -27,14 +27,37 @@ def big_inputs(run_, queries, rng):
                 run_.add("/".join(t) + "@big", p["q"], db, c, extra={"knobs": {"table_chunk_capacity": chunk}} if chunk else None)
 
 
+def text_inputs(run_, queries, rng):
+    """text-key sorts over a table with many ties on the integer key and every text value, always under the text styles
+    that make the full-value comparison and the multi-run merge matter (long shared prefixes, NUL padding, one run per
+    inserted row group)"""
+    rows = [[[a], [t]] if (a + t) % 7 else [[a], []] for a in (0, 1, 1, 2) for t in range(8)]
+    rng.shuffle(rows)
+    db = rel.abs_db([[[1], [1]]], [[[1], [1]]], rows)
+    styles = [{"split_inserts": True, "longtext": True}, {"split_inserts": True, "nultext": True}, {"longtext": True}]
+    for p in queries:
+        t = p["tag"]
+        if t[1] == "S":
+            for si, st in enumerate(styles):
+                for c in ({"partitions": 1}, {"partitions": 3, "threads": 4}, {"partitions": 2, "batch_size": 4, "_chunk": 4}):
+                    c = dict(c)
+                    chunk = c.pop("_chunk", None)
+                    run_.add("/".join(t) + "@text", p["q"], db, c, style=st, extra={"knobs": {"table_chunk_capacity": chunk}} if chunk else None)
+
+
+def extra(run_, queries, rng):
+    big_inputs(run_, queries, rng)
+    text_inputs(run_, queries, rng)
+
+
 def run(tier):
-    lims = "{0, 1, 2, 3, 4}" if tier == "quick" else "{0, 1, 2, 3, 4, 5, 15, 16, 17}"
-    offs = "{0, 1, 2, 3}" if tier == "quick" else "{0, 1, 2, 3, 4, 15, 16, 17}"
+    lims = "{0, 1, 2, 3, 4}" if tier == "quick" else "{0, 1, 2, 3, 4, 16, 17}"
+    offs = "{0, 1, 2, 3}" if tier == "quick" else "{0, 1, 2, 3, 16, 17}"
     return rel.run_tagged(
         "C08", tier, "GenSort", {"Lims": lims, "Offs": offs}, "sort",
-        dbs_fn=lambda tables, rng: rel.pick_dbs(tables, rng, 8 if tier == "quick" else 30),
+        dbs_fn=lambda tables, rng: rel.pick_dbs(tables, rng, 8 if tier == "quick" else 14),
         cfgs_fn=lambda rng: CFGS,
-        extra_items=big_inputs,
+        extra_items=extra,
         post=lambda rep, run_: scale.run(rep, tier, ["sort", "sort2"], "C08"),
         nontrivial=lambda it: len(it["obs"]["rows"]) > 1,
         rule=("GenSort.tla queries (ORDER BY with every direction / NULLS FIRST|LAST|default combination, one and two "
